@@ -119,6 +119,12 @@ def _is_exact(x):
 def _num_equal(a, b):
     if _is_exact(a) and _is_exact(b):
         return a == b
+    if (_is_exact(a) and type(b) is float) or (_is_exact(b) and type(a) is float):
+        # an exact coefficient on one side and a float on the other: the same operands went through other
+        # arithmetic (x / Fraction(3) is not x / 3.0); only a float that *is* that rational counts as equal
+        f = b if type(b) is float else a
+        if math.isfinite(f):
+            return a == b
     try:
         ca, cb = complex(a), complex(b)
     except Exception:
